@@ -27,7 +27,12 @@ def intersect_two_halfplanes(halfplane1, halfplane2):
     numba.bool_(numba.float64[::1], numba.float64[::1]),
     cache=True)
 def point_outside_of_halfplane(halfplane, point):
-    return cross2d(halfplane[2:], point - halfplane[:2]) < -EPSILON
+    # The cross product is a barycentric coordinate of the point (signed
+    # distance divided by the height of the tetrahedron). Its rounding error
+    # grows with the distance of the contact from the origin of the frame and
+    # is far above machine epsilon, so a vertex shared by more than two
+    # (or by coincident) half-planes must not be rejected because of it.
+    return cross2d(halfplane[2:], point - halfplane[:2]) < -1e-9
 
 
 @numba.njit(
